@@ -1367,3 +1367,38 @@ Theorem iter_none_spec W H fails s now b :
   (finished (get_bar s b) = false ->
    iter_none_step W H fails s now b = step W H fails s now (OFinish b (b_on_finish (get_bar s b)))).
 Proof. unfold iter_none_step. split; intros ->; reflexivity. Qed.
+
+(** the end of a wrapped iterator on the logic projection: like [lstep], no target, terminal,
+    MultiProgress state or fault oracle is read - so the hidden/visible twin equality extends to
+    iterator-driven completion *)
+Theorem iter_none_logic W H fails s now b :
+  bars_logic (fst (fst (iter_none_step W H fails s now b)))
+  = updN (bars_logic s) (N.to_nat b) l_iter_none.
+Proof.
+  unfold iter_none_step.
+  assert (Hfin : finished (get_bar s b) = l_finished (nth (N.to_nat b) (bars_logic s) logic_default))
+    by (rewrite <- logic_of_get_bar; reflexivity).
+  destruct (finished (get_bar s b)) eqn:Ef.
+  - cbn [fst]. rewrite <- (updN_id (bars_logic s) (N.to_nat b)) at 1.
+    apply updN_ext_at with (d := logic_default). intros _. unfold l_iter_none. now rewrite <- Hfin.
+  - rewrite step_logic. cbn [lstep op_bar lstep_bar].
+    apply updN_ext_at with (d := logic_default). intros _. unfold l_iter_none. now rewrite <- Hfin.
+Qed.
+
+Theorem iter_none_twins W1 H1 f1 W2 H2 f2 s1 s2 now b :
+  bars_logic s1 = bars_logic s2 ->
+  bars_logic (fst (fst (iter_none_step W1 H1 f1 s1 now b)))
+  = bars_logic (fst (fst (iter_none_step W2 H2 f2 s2 now b))).
+Proof. intros Heq. rewrite !iter_none_logic, Heq. reflexivity. Qed.
+
+(* ... and it is silent on a hidden bar *)
+Theorem iter_none_silent W H fails s now b :
+  bar_hidden s b = true ->
+  snd (fst (iter_none_step W H fails s now b)) = [] /\
+  s_calls (fst (fst (iter_none_step W H fails s now b))) = s_calls s.
+Proof.
+  intros Hh. unfold iter_none_step. destruct (finished (get_bar s b)); [split; reflexivity|].
+  destruct (step_silent W H fails s now (OFinishUsingStyle b)) as (He & Hc & _).
+  { unfold subject_hidden. exact Hh. }
+  cbn [closure_writes emit_each length fst] in He, Hc. split; [exact He|]. rewrite Hc. lia.
+Qed.
